@@ -67,6 +67,18 @@ pub fn etags() -> Vec<Option<Vec<u8>>> {
     ]
 }
 
+/// Entity tags with every kind of character `etagc` allows that a parser might trip over: comma
+/// (with and without a space), semicolon / equals, `*`, a `W/` inside the quotes, backslash,
+/// the empty tag, obs-text, a long one; plus weak forms.
+pub fn etags_rich() -> Vec<Option<Vec<u8>>> {
+    let mut v: Vec<Option<Vec<u8>>> = vec![None];
+    for t in [&b"\"v1\""[..], b"W/\"v1\"", b"\"a, b\"", b"\"1,234\"", b"\"\"", b"\"*\"", b"\"x;q=0\"", b"\"W/\"", b"\"back\\slash\"", b"\"v1-caf\xc3\xa9\xff\"", b"W/\"a, b\""] {
+        v.push(Some(t.to_vec()));
+    }
+    v.push(Some(format!("\"{}\"", "t".repeat(300)).into_bytes()));
+    v
+}
+
 pub fn header_sets() -> Vec<Vec<(String, Vec<u8>)>> {
     vec![
         vec![],
@@ -92,6 +104,12 @@ pub fn header_sets() -> Vec<Vec<(String, Vec<u8>)>> {
             ("content-language".into(), b"de".to_vec()),
             ("x-a".into(), b"1".to_vec()),
             ("x-a".into(), b"2".to_vec()),
+        ],
+        // values with optional whitespace around them (legal in a HeaderValue; not part of the value)
+        vec![
+            ("content-disposition".into(), b"attachment; filename=report.txt ".to_vec()),
+            ("x-pad".into(), b"\t padded \t".to_vec()),
+            ("content-type".into(), b" text/plain".to_vec()),
         ],
     ]
 }
